@@ -77,7 +77,41 @@ def dec_arr(j: dict) -> np.ndarray:
              if flat else np.empty((0,), dtype=dt))
     else:
         a = np.array([int(x) for x in flat], dtype=dt) if flat else np.empty((0,), dtype=dt)
-    return a.reshape(shape)
+    return relayout(a.reshape(shape), j.get("layout"))
+
+
+LAYOUTS = ["F", "swap", "strided", "neg", "be", "ro"]
+
+
+def relayout(a: np.ndarray, layout) -> np.ndarray:
+    """the same logical array (shape, dtype up to byte order, C-order contents) in another MEMORY layout:
+    Fortran order, axis-swapped view, strided slice of a larger buffer, negative stride, non-native byte order,
+    read-only.  Code that ravels/copies with the wrong order or writes into its input shows up only on these."""
+    if layout is None or a.dtype == object:
+        return a
+    if layout == "F":
+        return np.asfortranarray(a) if a.ndim >= 2 else a      # (asfortranarray would promote rank 0 to rank 1)
+    if layout == "swap":
+        if a.ndim < 2:
+            return a
+        return np.swapaxes(np.ascontiguousarray(np.swapaxes(a, 0, -1)), 0, -1)
+    if layout == "strided":
+        if a.ndim < 1:
+            return a
+        big = np.zeros((2 * a.shape[0] + 1, *a.shape[1:]), dtype=a.dtype)
+        big[1::2] = a
+        return big[1::2]
+    if layout == "neg":
+        if a.ndim < 1:
+            return a
+        return a[::-1].copy()[::-1]
+    if layout == "be":
+        return a.astype(a.dtype.newbyteorder(">")) if a.dtype.kind in "iufU" else a
+    if layout == "ro":
+        b = a.copy()
+        b.setflags(write=False)
+        return b
+    raise ValueError(layout)
 
 
 def obj_array(elems) -> np.ndarray:
@@ -117,7 +151,7 @@ def enc_inmem(o) -> dict:
 def strip_width(j):
     """drop the python-only unicode width (the Lean model has one `str` dtype)"""
     if isinstance(j, dict):
-        return {k: strip_width(v) for k, v in j.items() if k not in ("width", "np")}
+        return {k: strip_width(v) for k, v in j.items() if k not in ("width", "np", "layout")}
     if isinstance(j, list):
         return [strip_width(x) for x in j]
     return j
@@ -227,11 +261,12 @@ class StoreCtx:
 
 # ------------------------------------------------------------------ the specification side (numpy level)
 def arr_equal(a: np.ndarray, b: np.ndarray) -> bool:
-    """dtype, shape and every element identical (floats by bit pattern)"""
-    if a.dtype != b.dtype or a.shape != b.shape:
+    """dtype (up to byte order), shape and every element identical (floats by bit pattern, logical C order)"""
+    if a.dtype.newbyteorder("=") != b.dtype.newbyteorder("=") or a.shape != b.shape:
         return False
     if a.dtype.kind in "fc":
-        return a.tobytes() == b.tobytes()
+        nat = a.dtype.newbyteorder("=")
+        return np.array(a, order="C").astype(nat).tobytes() == np.array(b, order="C").astype(nat).tobytes()
     if a.dtype.kind in "UT":
         return a.tolist() == b.tolist()
     return bool(np.array_equal(a, b))
@@ -240,9 +275,9 @@ def arr_equal(a: np.ndarray, b: np.ndarray) -> bool:
 def upcast_expected(v: np.ndarray) -> np.ndarray:
     """float16 is upcast to float32 (numerically exact); computed without numpy's cast: through
     Python floats and struct, NaNs keep their sign and payload position"""
-    if v.dtype != np.float16:
+    if v.dtype.newbyteorder("=") != np.float16:
         return v
-    bits = v.ravel().view(np.uint16).tolist()
+    bits = np.array(v, order="C").astype(np.float16).ravel().view(np.uint16).tolist()
     out = []
     for h in bits:
         s, e, m = h >> 15, (h >> 10) & 0x1F, h & 0x3FF
@@ -270,7 +305,7 @@ def same_prop(name, want, got, where):
                 return [("C01:prop-values", f"{where} var-length property {name!r}: element {i} written {v[i]!r} read {gv[i]!r}")]
         return []
     v = upcast_expected(v)
-    if gv.dtype != v.dtype or gv.shape != v.shape:
+    if gv.dtype.newbyteorder("=") != v.dtype.newbyteorder("=") or gv.shape != v.shape:
         return [("C01:prop-dtype-shape", f"{where} property {name!r}: written dtype {v.dtype} shape {v.shape}, read dtype {gv.dtype} shape {gv.shape}")]
     for i, ok in enumerate(present):
         if ok and not arr_equal(np.asarray(v[i]), np.asarray(gv[i])):
@@ -434,11 +469,36 @@ def rand_ids(rng, n_max=40, e_max=80):
             {"dtype": idt, "shape": [e, 2], "flat": [jint(x) for r in edges for x in r]})
 
 
+def set_layouts(rng, g, p=0.4):
+    """give a share of the arrays of a JSON geff another memory layout (ids share theirs: same dtype object)"""
+    def pick():
+        return rng.choice(LAYOUTS) if rng.random() < p else None
+    lay = pick()
+    if lay is not None:
+        g["node_ids"]["layout"] = lay
+        g["edge_ids"]["layout"] = lay
+    for key in ("node_props", "edge_props"):
+        for _, pr in g[key] or []:
+            v = pr["values"]
+            for arr in (v["obj"] if "obj" in v else [v]):
+                lay = pick()
+                if lay is not None and not ("obj" in v and lay == "be"):   # elements of one object array share a dtype
+                    arr["layout"] = lay
+            if "obj" in v and rng.random() < p / 2:
+                for arr in v["obj"]:
+                    arr["layout"] = "be"
+            if pr["missing"] is not None:
+                lay = pick()
+                if lay is not None:
+                    pr["missing"]["layout"] = lay
+    return g
+
+
 def rand_geff(rng, n_max=40, e_max=80, kmax=3, **kw):
     nid, eid = rand_ids(rng, n_max, e_max)
-    return {"node_ids": nid, "edge_ids": eid,
-            "node_props": rand_props(rng, nid["shape"][0], kmax, **kw),
-            "edge_props": rand_props(rng, eid["shape"][0], kmax, **kw)}
+    return set_layouts(rng, {"node_ids": nid, "edge_ids": eid,
+                             "node_props": rand_props(rng, nid["shape"][0], kmax, **kw),
+                             "edge_props": rand_props(rng, eid["shape"][0], kmax, **kw)})
 
 
 def build_geff(g):
